@@ -15,3 +15,23 @@ def run(ctx, rep):
     n, p = RE.c21(ctx.facts, rep)
     rep.floor("R21a", n, 1, "positional inserts into sample_list")
     rep.floor("R21c", p, 1, "appends to sample_list")
+    # R21e: the order samples were inserted with is the order the reader reports: destination_order cannot be changed on an
+    # enabled reader (a history built in reception order would otherwise be extended by sorted inserts)
+    from vplib import expr as E
+    from rules.common import FnCtx, cmp_norm
+    fx = ctx.facts
+    k = 0
+    for b in fx.bodies.values():
+        if b.kind == "AssocFn" and b.item_name == "check_immutability" and (b.impl_self or "").endswith("DataReaderQos"):
+            k += 1
+            fc = FnCtx(b)
+            got = set()
+            for sb, ce in fc.ces.items():
+                c = cmp_norm(E.strip_casts(ce.expr))
+                if c and c[0] in ("Ne", "Eq"):
+                    for x in (c[1], c[2]):
+                        if x[0] == "param" and x[2]:
+                            got.add(x[2][0])
+            rep.add("R21e", b.sname, "destination_order is immutable on an enabled reader", "destination_order" in got,
+                    "DataReaderQos::check_immutability does not compare destination_order: set_qos can switch an enabled reader to BY_SOURCE_TIMESTAMP and later samples are sorted into a history that is not sorted", b.loc())
+    rep.floor("R21e", k, 1, "DataReaderQos::check_immutability")
